@@ -51,3 +51,46 @@ def chord_inv_bass_not_chord_tone(case, observed):
     into the bitmap before the test (majmin_inv(['C/6'], ['C/6']) == 1 instead of -1)."""
     rm = case.get("ref_model") or {}
     return rm.get("bass_is_chord_tone") is False
+
+
+def _segment_frames(case):
+    """frame label sequences (ref, est) of a segment adapter case, via the C16 model's sampler"""
+    from fractions import Fraction as Fr
+    from mc.spec import segment_labels as SL
+    fs = (case.get("cfg") or {}).get("frame_size", 0.5)
+    out = []
+    if case.get("kind") == "single":
+        sides = [case["x"], case["x"]]
+    else:
+        sides = [case["ref"], case["est"]]
+    for side in sides:
+        if not side:
+            return None
+        ivs = [(Fr(a), Fr(b)) for a, b in side[0]]
+        out.append(SL.frame_labels(ivs, [str(l).lower() for l in side[1]], fs))
+    return out
+
+
+def _no_cocluster_pair(y):
+    return len(set(y)) == len(y)
+
+
+def segment_pairwise_no_pairs(case, observed):
+    """pairwise precision / recall are 0/0 (NaN) when a side has no two frames in the same cluster (all
+    singletons, or a single frame)."""
+    if case.get("func") != "segment.pairwise":
+        return False
+    fr = _segment_frames(case)
+    if fr is None or not (_no_cocluster_pair(fr[0]) or _no_cocluster_pair(fr[1])):
+        return False
+    return isinstance(observed, dict) and any(isinstance(v, float) and v != v for v in observed.values())
+
+
+def segment_rand_single_frame(case, observed):
+    """rand_index divides by the number of frame pairs, which is 0 for a single frame."""
+    if case.get("func") != "segment.rand_index":
+        return False
+    fr = _segment_frames(case)
+    if fr is None or len(fr[0]) != 1:
+        return False
+    return isinstance(observed, dict) and any(isinstance(v, float) and v != v for v in observed.values())
